@@ -14,7 +14,7 @@ RULE = ("a valid input set for every command (snps, closest, updown list, updown
         "applied to each applicable input file at the first, a middle and the last record: unequal row length (longer, shorter, or a header with no sequence at all), non-IUPAC "
         "symbol, empty file, missing file, header-less/empty SAM, reference vs alignment width, query vs target width, two "
         "records in --reference, empty CSV, CSV that is not updown list output, window outside 1..reference length and "
-        "start > end, unrecognised annotation suffix, no size/dist option. Every run is the built binary under a timeout; "
+        "start > end, unrecognised annotation suffix, no size/dist option, and each invalid topranking file next to a header-only (valid, zero-row) CSV on the other side. Every run is the built binary under a timeout; "
         "the verdict is the exit status: 0 or a timeout is a violation. Non-trivial: every corrupted run. Distinct by (command, "
         "file, corruption, position).")
 ASSUMPTIONS = ["exit status 2 (Go panic) counts as a refusal with a non-zero exit; C16 separately demands that the FASTA readers never panic",
@@ -170,6 +170,24 @@ def check(ctx):
         for bad in (notcsv, fastacsv):
             runs.append(("topranking csv: --query is not updown list output", ["updown", "topranking", "-q", bad, "-t", csvp, "--size-total", "4"], None))
             runs.append(("topranking csv: --target is not updown list output", ["updown", "topranking", "-q", csvp, "-t", bad, "--size-total", "4"], None))
+        # a degenerate but valid companion does not excuse the other file: header-only updown list CSV (no rows) as the query
+        # or as the target, next to each kind of invalid file on the other side
+        hdr = W("header_only.csv", open(csvp, "rb").read().split(b"\n")[0] + b"\n")
+        cls0, _, _, err0 = cm.run_binary(binp, ["updown", "topranking", "-q", hdr, "-t", csvp, "--size-total", "4"], timeout=TIMEOUT)
+        cls1, _, _, err1 = cm.run_binary(binp, ["updown", "topranking", "-q", csvp, "-t", hdr, "--size-total", "4"], timeout=TIMEOUT)
+        badfastas = [os.path.join(tmp, "bad_%s_%d.fasta" % (k, ps)) for k in ("unequal", "shorter", "badsym", "emptyseq") for ps in (0, 2)]
+        badfastas = [b for b in badfastas if os.path.isfile(b)]
+        for opts in (["--size-total", "4"], ["--dist-all", "2", "--table"]):
+            if cls0 == "ok":
+                for bad in (notcsv, fastacsv, empty, missing):
+                    runs.append(("topranking csv: header-only --query, --target %s" % os.path.basename(bad), ["updown", "topranking", "-q", hdr, "-t", bad] + opts, None))
+                for bad in badfastas + [longer, empty]:
+                    runs.append(("topranking: header-only CSV --query, FASTA --target %s" % os.path.basename(bad), ["updown", "topranking", "-r", ref, "-q", hdr, "-t", bad] + opts, None))
+            if cls1 == "ok":
+                for bad in (notcsv, fastacsv, empty, missing):
+                    runs.append(("topranking csv: header-only --target, --query %s" % os.path.basename(bad), ["updown", "topranking", "-q", bad, "-t", hdr] + opts, None))
+                for bad in badfastas + [longer, empty]:
+                    runs.append(("topranking: header-only CSV --target, FASTA --query %s" % os.path.basename(bad), ["updown", "topranking", "-r", ref, "-q", bad, "-t", hdr] + opts, None))
         # windows
         for name in ("toma", "topa"):
             for (s, e) in ((0, 5), (L + 1, L + 2), (5, L + 1), (7, 3), (-3, 5)):
